@@ -258,8 +258,9 @@ def run_model(lines, shards=None):
     chunks = [lines[i::shards] for i in range(shards)]
     procs = []
     for ch in chunks:
-        p = subprocess.Popen(['bash', '-c', 'ulimit -s 4000000 2>/dev/null; exec "$0"', MODEL_RUN],
-                             stdin=subprocess.PIPE, stdout=subprocess.PIPE)
+        p = subprocess.Popen(['bash', '-c', 'ulimit -s 4000000 2>/dev/null; exec timeout -s KILL %d "$0"'
+                              % int(os.environ.get('VERIF_MODEL_TIMEOUT', '1500')), MODEL_RUN],
+                             stdin=subprocess.PIPE, stdout=subprocess.PIPE, stderr=subprocess.DEVNULL)
         procs.append(p)
     import threading
     outs = [None] * shards
